@@ -4,13 +4,13 @@
 WT=/tmp/wt_lead
 cd /verif
 [ -d $WT ] || git -C /repo worktree add --detach $WT >/dev/null 2>&1
-git -C $WT checkout -q -- . ; git -C $WT checkout -q --detach $(git -C /repo rev-parse HEAD)
+git -C $WT reset -q --hard; git -C $WT checkout -q --detach $(git -C /repo rev-parse HEAD); git -C $WT reset -q --hard
 patch=$(realpath "$1"); shift
 if ! git -C $WT apply "$patch" 2>/dev/null; then
-  if ! git -C $WT apply --3way "$patch" >/dev/null 2>&1; then echo "PATCH-DOES-NOT-APPLY $patch"; exit 2; fi
+  echo "PATCH-DOES-NOT-APPLY $patch"; git -C $WT reset -q --hard; exit 2
 fi
 for p in "$@"; do
   out=$(BV_REPO=$WT timeout 900 ./check $p --tier ${TIER:-quick} 2>/dev/null | grep -E "^VIOLATION|^KNOWN" | sed 's#replay=/verif/replays/##' | tr '\n' ';')
   echo "$p: ${out:-quiet}"
 done
-git -C $WT checkout -q -- . ; git -C $WT clean -fdq -e target
+git -C $WT reset -q --hard; git -C $WT clean -fdq -e target
